@@ -66,8 +66,22 @@ typedef bitint447_t set_t;
 
 /* known-finding classes (see known_findings.json); each is a predicate on the
  * inserted sequence */
+#if !defined PRE
+# define PRE 0
+#endif
+/* -DPRE=n: n fixed, distinct values are inserted first so that the K symbolic
+ * ones meet the container in its bitset form (the 383/447 types switch from a
+ * sorted list to bitsets with the 13th / 15th value) */
+static long long pre_val(unsigned i)
+{
+	return (long long)i * 23 - 140;	/* -140, -117, ..., spread over both signs, never 0 */
+}
+
 static bool has_val(long long x)
 {
+	for (unsigned i = 0; i < PRE; i++) {
+		if (pre_val(i) == x) return true;
+	}
 	for (unsigned i = 0; i < K; i++) {
 		if (in.v[i] == x) return true;
 	}
@@ -77,7 +91,7 @@ static bool has_val(long long x)
 void harness(void)
 {
 	set_t s;
-	long long out[K + 1];
+	long long out[K + PRE + 1];
 	unsigned n = 0;
 	bitint_iter_t it = 0U;
 	long long x;
@@ -90,6 +104,15 @@ void harness(void)
 	EXTRA_ASSUME;
 #endif
 	EMPTY(s);
+#if defined BITSET_FORM
+	/* the container as it is after its list form has overflown: bit 0 of pos[0]
+	 * flags the bitset representation; the values that got it there are dropped
+	 * from the state (any subset of bits is a reachable bitset state) */
+	s.pos[0] = 1U;
+#endif
+	for (unsigned i = 0; i < PRE; i++) {
+		ASS(s, pre_val(i));
+	}
 	for (unsigned i = 0; i < K; i++) {
 		ASS(s, in.v[i]);
 	}
@@ -100,8 +123,8 @@ void harness(void)
 	/* iterate with the protocol every caller in evrrul.c uses:
 	 *   for (it = 0; (x = next(&it, s)), it;) */
 	for (; (x = NEXT(&it, s)), it;) {
-		CHECK(n < K, "iteration terminates within K values");
-		if (n >= K) break;
+		CHECK(n < K + PRE, "iteration terminates within the number of inserted values");
+		if (n >= K + PRE) break;
 		out[n++] = x;
 	}
 	for (unsigned i = 0; i < n; i++) {
@@ -110,10 +133,11 @@ void harness(void)
 			CHECK(out[i] != out[j], "iteration yields each value once");
 		}
 	}
-	for (unsigned i = 0; i < K; i++) {
+	for (unsigned i = 0; i < K + PRE; i++) {
 		bool found = false;
+		const long long want = i < K ? in.v[i] : pre_val(i - K);
 		for (unsigned j = 0; j < n; j++) {
-			found |= out[j] == in.v[i];
+			found |= out[j] == want;
 		}
 		CHECK(found, "iteration yields every inserted value");
 	}
